@@ -27,7 +27,7 @@ StripSpans(r) ==
   ELSE LET lv == IntoVec(r.e) IN [ok |-> FALSE, v |-> [i \in 1..Len(lv) |-> [k |-> lv[i].k, n |-> lv[i].n, loc |-> lv[i].loc]]]
 NoSyntaxErr == \A a \in 1..Len(attrs) : Handled(attrs[a].path) => attrs[a].form \in {"list", "word"}
 C08_Merge ==
-  (done /\ IsElement /\ NoSyntaxErr) =>
+  (done /\ IsElement /\ NoSyntaxErr /\ R.attr_names # <<>>) =>
      StripSpans(result) =
        StripSpans(RunAll(R, <<[path |-> R.attr_names[1], form |-> "list", items |-> MergedItems(R, attrs)]>>))
 
